@@ -25,22 +25,30 @@ import (
 // 1..n, which are bare routers with a fixed identity and address that are stopped and started
 // again. Operations (see lean/OnetVerif/Model/C09.lean, Drv.step):
 //
-//   open <tcp|local> <peers up>   fresh cluster on that transport; the listed victims listen
+//   open <tcp|tls|local> <peers up>  fresh cluster on that transport; the listed victims listen
 //   handler <h>                   S registers connection-error handler number h
+//   rhandler <h> <q>              S registers error handler number h that uses the router it is registered
+//                                 with: when called it asks Closed() and sends one message to peer q
 //   send <entry> <dests> <n>      the send entry point towards these peers (n messages per
-//                                 Router.Send; n > 1 only for entry "router"); entries: router, raw
+//                                 Router.Send; n != 1 only for entry "router"); entries: router, raw
 //                                 (Context.SendRaw), sendto, parent, children, parallel, multicast,
 //                                 broadcast
+//   selfsend <n>                  Router.Send of n messages to the own identity
 //   par <entry> <deads> <healthy> one send per dead peer (all at once, through that entry point) and,
 //                                 100 ms later, a router send to a healthy peer S has no connection with
 //   down <p>                      the victim stops; waits until S's receive loops reported it
 //   freeze <p>                    class silent-tcp: the victim goes silent without closing anything (its
 //                                 address stops answering, S's connection stays open); the connection
 //                                 time-out is scaled down to 1.5 s for these cases (hook VerifSetReadTimeout)
+//   hang <p>                      class frozen-tls: the victim's process stops answering while its address
+//                                 keeps accepting connections (nobody answers the TLS handshake)
 //   pause                         S's receive loops stop reporting failures (Router.Pause)
 //   kill <p>                      the victim stops, nobody waits for S to notice
 //   up <p>                        the victim listens again (same identity, same address)
 //   conns <p>                     number of connections with p in S's connection table
+//   tni <k> <parent|-> <children|->  a tree-node instance of S that lives until the end of the case
+//   tcfg <k> / tdone <k>          SetConfig / Done on it
+//   tsend <k> <entry> <dests|->   an entry point on it (sendto -: nil destination)
 //
 // not modelled (classes "cut" and "orphan", compared with nothing, oracle only):
 //   orphan <x> <k>                S handles the first message of a run over a tree it does not know, sent
@@ -48,11 +56,25 @@ import (
 //                                 (S2 -> S) arrive
 //   cut <p> <k>                   the next connection towards victim p is cut after k bytes
 //   settle
+//
+// Waiting: nothing the verdict depends on is a fixed sleep. Every wait polls for the awaited event
+// and gives up after a patience that only matters on a broken tree (10 s and more), so a loaded
+// machine makes a case slower, not different. The two oracles that compare completion orders
+// (healthy-send-held-back, canary-held-back) repeat the experiment and fail only if it comes out
+// the same way three times. Calls into the code under test run under a guard: when one does not
+// come back the case fails with a signature of its own and nothing more is asked of that process.
 
 // C09Msg is the payload of router-level and raw sends.
 type C09Msg struct{ V int64 }
 
 var c09MsgType network.MessageTypeID
+
+const (
+	c09waitDeliver  = 10 * time.Second
+	c09waitHandlers = 10 * time.Second
+	c09waitSilent   = 15 * time.Second
+	c09waitTable    = 10 * time.Second
+)
 
 type c09Service struct {
 	*onet.ServiceProcessor
@@ -77,6 +99,28 @@ func c09Register() {
 	})
 }
 
+func c09ints(s string) ([]int, bool) {
+	if s == "-" {
+		return nil, true
+	}
+	var out []int
+	for _, p := range strings.Split(s, ",") {
+		v, err := strconv.Atoi(p)
+		if err != nil || v < 0 {
+			return nil, false
+		}
+		out = append(out, v)
+	}
+	return out, true
+}
+
+func c09bucketN(n int) int {
+	if n > 2 {
+		return 3
+	}
+	return n
+}
+
 type c09victim struct {
 	n      int
 	kp     *key.Pair
@@ -88,182 +132,29 @@ type c09victim struct {
 	proxy  *c09proxy
 	silent *c09silent
 	frozen bool
+	// class frozen-tls: what sits at the victim's address while its process does not answer
+	holder *c09holder
 	// does S hold a registered connection with this incarnation (harness bookkeeping for waits)
 	connected bool
-}
-
-// c09proxy sits between S and a TCP victim; it can cut the next connection after k bytes.
-type c09proxy struct {
-	ln     net.Listener
-	target string
-	cut    int64 // < 0: pass everything
-	fired  int32 // the armed cut has happened
-}
-
-func (p *c09proxy) serve() {
-	for {
-		c, err := p.ln.Accept()
-		if err != nil {
-			return
-		}
-		go func(c net.Conn) {
-			s, err := net.DialTimeout("tcp", p.target, time.Second)
-			if err != nil {
-				c.Close()
-				return
-			}
-			budget := atomic.SwapInt64(&p.cut, -1)
-			done := make(chan bool, 2)
-			go func() {
-				buf := make([]byte, 4096)
-				for {
-					n, err := c.Read(buf)
-					if n > 0 {
-						if budget >= 0 && int64(n) >= budget {
-							s.Write(buf[:budget])
-							atomic.StoreInt32(&p.fired, 1)
-							break
-						}
-						if budget >= 0 {
-							budget -= int64(n)
-						}
-						if _, werr := s.Write(buf[:n]); werr != nil {
-							break
-						}
-					}
-					if err != nil {
-						break
-					}
-				}
-				done <- true
-			}()
-			go func() {
-				buf := make([]byte, 4096)
-				for {
-					n, err := s.Read(buf)
-					if n > 0 {
-						if _, werr := c.Write(buf[:n]); werr != nil {
-							break
-						}
-					}
-					if err != nil {
-						break
-					}
-				}
-				done <- true
-			}()
-			<-done
-			c.Close()
-			s.Close()
-		}(c)
-	}
-}
-
-// c09silent is the network between S and a TCP victim in class "silent": it forwards until it is
-// frozen; then nothing listens at the victim's address any more, the victim's side of every
-// connection is closed, and S's side stays open and silent — a peer that lost power or was cut off.
-type c09silent struct {
-	addr, target string
-	mu           sync.Mutex
-	ln           net.Listener
-	frozen       bool
-	held         []net.Conn
-}
-
-func (p *c09silent) listen() error {
-	var err error
-	for i := 0; i < 100; i++ {
-		var ln net.Listener
-		if ln, err = net.Listen("tcp", p.addr); err == nil {
-			p.mu.Lock()
-			p.ln, p.frozen = ln, false
-			p.mu.Unlock()
-			go p.serve(ln)
-			return nil
-		}
-		time.Sleep(20 * time.Millisecond)
-	}
-	return err
-}
-
-func (p *c09silent) serve(ln net.Listener) {
-	for {
-		c, err := ln.Accept()
-		if err != nil {
-			return
-		}
-		s, err := net.DialTimeout("tcp", p.target, time.Second)
-		if err != nil {
-			c.Close()
-			continue
-		}
-		p.mu.Lock()
-		p.held = append(p.held, c, s)
-		p.mu.Unlock()
-		go func() { // S -> victim; when frozen, swallow
-			buf := make([]byte, 4096)
-			for {
-				n, err := c.Read(buf)
-				if n > 0 {
-					s.Write(buf[:n])
-				}
-				if err != nil {
-					break
-				}
-			}
-			c.Close()
-			s.Close()
-		}()
-		go func() { // victim -> S
-			buf := make([]byte, 4096)
-			for {
-				n, err := s.Read(buf)
-				if n > 0 {
-					c.Write(buf[:n])
-				}
-				if err != nil {
-					break
-				}
-			}
-			p.mu.Lock()
-			fr := p.frozen
-			p.mu.Unlock()
-			if !fr {
-				c.Close()
-			}
-			s.Close()
-		}()
-	}
-}
-
-func (p *c09silent) freeze() {
-	p.mu.Lock()
-	p.frozen = true
-	if p.ln != nil {
-		p.ln.Close()
-	}
-	held := p.held
-	p.mu.Unlock()
-	for i := 1; i < len(held); i += 2 {
-		held[i].Close() // the victim's side
-	}
-}
-
-func (p *c09silent) closeAll() {
-	p.mu.Lock()
-	if p.ln != nil {
-		p.ln.Close()
-	}
-	held := p.held
-	p.held = nil
-	p.mu.Unlock()
-	for _, c := range held {
-		c.Close()
-	}
+	// index into S's handler-call log at which this incarnation began
+	callMark int
 }
 
 type c09world struct {
-	vmu         sync.Mutex // guards victims
+	vmu sync.Mutex // guards victims
+	// the code under test did not come back from a call: nothing more is asked of it
+	dead bool
+	// TLS flavour of the TCP transport (servers built here, no LocalTest)
+	tls    bool
+	dialTO time.Duration
+	// handlers that use the router: number -> identity of the peer they notify
+	rh     map[int]*network.ServerIdentity
+	rhPeer map[int]int
+	rhIn   int64 // calls of such handlers begun
+	rhOut  int64 // ... and returned
+	// tree-node instances that live across operations
+	ptni        map[int]*c09ptni
+	selfGot     int64
 	silentClass bool
 	oldTimeout  time.Duration
 	paused      bool
@@ -282,13 +173,74 @@ type c09world struct {
 	victims  map[int]*c09victim
 	handlers []int
 	mu       sync.Mutex
-	calls    []string
+	calls    []string // every handler call so far, in order
 	seq      int64
 	tags     map[string]bool
 	s2conn   bool
 }
 
 func (w *c09world) tag(s string) { w.tags[s] = true }
+
+// guarded runs f, which calls into the code under test. If f does not come back within d the case
+// fails with that signature and the process under test is left alone from then on.
+func (w *c09world) guarded(d time.Duration, sig, what string, f func()) bool {
+	done := make(chan struct{})
+	go func() {
+		defer close(done)
+		f()
+	}()
+	select {
+	case <-done:
+		return true
+	case <-time.After(d):
+		w.cs.Fail(sig, fmt.Sprintf("%s did not return within %v", what, d))
+		w.dead = true
+		return false
+	}
+}
+
+// connCount reads S's connection table (-1: the table's lock could not be had).
+func (w *c09world) connCount(id network.ServerIdentityID) int {
+	n := -1
+	if w.dead {
+		return n
+	}
+	w.guarded(c09waitTable, "router-blocked", "reading the survivor's connection table (it takes the router's lock)", func() {
+		n = w.s.VerifConnCount(id)
+	})
+	return n
+}
+
+// waitNoConn polls until S's table holds no connection with that peer.
+func (w *c09world) waitNoConn(id network.ServerIdentityID, patience time.Duration) {
+	end := time.Now().Add(patience)
+	for !w.dead && time.Now().Before(end) {
+		if w.connCount(id) <= 0 {
+			return
+		}
+		time.Sleep(time.Millisecond)
+	}
+}
+
+// perConnect is what the configuration allows one connect to take when every attempt fails:
+// MaxRetryConnect attempts of at most the dial time-out with WaitRetry in between on TCP and TLS;
+// MaxRetryConnect^2 pauses on the in-memory transport (attempts take no time there).
+func (w *c09world) perConnect() time.Duration {
+	m := time.Duration(network.MaxRetryConnect)
+	if !w.tcp {
+		return m * m * network.WaitRetry
+	}
+	return m*w.dialTO + (m-1)*network.WaitRetry
+}
+
+// allowed is the patience with one entry-point call: nDests router sends of at most nMsgs messages,
+// each of which may connect 1+nMsgs times; twice that and five seconds for a loaded machine.
+func (w *c09world) allowed(nDests, nMsgs int) time.Duration {
+	if nDests < 1 {
+		nDests = 1
+	}
+	return 2*time.Duration(nDests*(1+nMsgs))*w.perConnect() + 5*time.Second
+}
 
 func (w *c09world) victim(n int) *c09victim {
 	w.vmu.Lock()
@@ -301,18 +253,32 @@ func (w *c09world) victim(n int) *c09victim {
 	return v
 }
 
+func (w *c09world) addr(port int) network.Address {
+	a := "127.0.0.1:" + strconv.Itoa(port)
+	if w.tls {
+		return network.NewTLSAddress(a)
+	}
+	return network.NewTCPAddress(a)
+}
+
+func (w *c09world) identity(v *c09victim, a network.Address) *network.ServerIdentity {
+	si := network.NewServerIdentity(v.kp.Public, a)
+	si.SetPrivate(v.kp.Private)
+	return si
+}
+
 // start brings the victim's router up on its fixed address.
 func (w *c09world) start(v *c09victim) error {
 	var r *network.Router
 	if w.tcp {
 		if v.own == nil {
-			v.own = network.NewServerIdentity(v.kp.Public, network.NewTCPAddress("127.0.0.1:"+strconv.Itoa(c09port(v.n))))
+			v.own = w.identity(v, w.addr(c09port(v.n)))
 			v.sid = v.own
 		}
-		own := network.NewServerIdentity(v.kp.Public, v.own.Address)
+		own := w.identity(v, v.own.Address)
 		var hst *network.TCPHost
 		var err error
-		for i := 0; i < 100; i++ {
+		for i := 0; i < 250; i++ {
 			if hst, err = network.NewTCPHost(own, fix.Suite); err == nil {
 				break
 			}
@@ -352,11 +318,16 @@ func (w *c09world) start(v *c09victim) error {
 	count := func(*network.Envelope) error { atomic.AddInt64(&v.got, 1); return nil }
 	r.RegisterProcessorFunc(c09MsgType, count)
 	r.RegisterProcessorFunc(onet.ProtocolMsgID, count)
-	r.RegisterProcessorFunc(onet.ConfigMsgID, func(*network.Envelope) error { return nil })
+	// the configuration of a tree-node instance travels as a message of its own in front of the
+	// first protocol message
+	r.RegisterProcessorFunc(onet.ConfigMsgID, count)
 	go r.Start()
-	for i := 0; i < 3000 && !r.Listening(); i++ {
+	for i := 0; i < 10000 && !r.Listening(); i++ {
 		time.Sleep(time.Millisecond)
 	}
+	w.mu.Lock()
+	v.callMark = len(w.calls)
+	w.mu.Unlock()
 	v.r, v.up, v.connected = r, true, false
 	return nil
 }
@@ -370,8 +341,8 @@ func (w *c09world) stop(v *c09victim) {
 	go func() { v.r.Stop(); close(done) }()
 	select {
 	case <-done:
-	case <-time.After(3 * time.Second):
-		w.cs.Fail("harness", "a victim router did not stop within 3 s")
+	case <-time.After(15 * time.Second):
+		w.cs.Fail("harness", "a victim router did not stop within 15 s")
 	}
 }
 
@@ -384,20 +355,34 @@ func (w *c09world) open(tr string, ups []int) string {
 			}
 		}
 	}
-	w.tcp = tr == "tcp"
-	if w.tcp {
+	w.tcp = tr == "tcp" || tr == "tls"
+	w.tls = tr == "tls"
+	switch {
+	case w.tls:
+		w.dialTO = 500 * time.Millisecond
+		network.SetTCPDialTimeout(w.dialTO)
+		if err := w.openTLS(); err != nil {
+			w.cs.Fail("harness", err.Error())
+			return "harness-error"
+		}
+	case w.tcp:
+		w.dialTO = time.Second // the package's default, set explicitly so that the bound below is the configured one
+		network.SetTCPDialTimeout(w.dialTO)
 		w.lt = onet.NewTCPTest(fix.Suite)
-	} else {
+	default:
 		w.lt = onet.NewLocalTest(fix.Suite)
 	}
-	w.lt.Check = onet.CheckNone
-	srv := w.lt.GenServers(2)
-	w.s, w.s2 = srv[0], srv[1]
+	if w.lt != nil {
+		w.lt.Check = onet.CheckNone
+		srv := w.lt.GenServers(2)
+		w.s, w.s2 = srv[0], srv[1]
+	}
 	w.svc, _ = w.s.Service("VerifC09").(*c09Service)
 	if w.svc == nil {
 		w.cs.Fail("harness", "the harness service is missing on the survivor")
 		return "harness-error"
 	}
+	w.s.RegisterProcessorFunc(c09MsgType, func(*network.Envelope) error { atomic.AddInt64(&w.selfGot, 1); return nil })
 	for _, n := range ups {
 		if n == 0 {
 			continue
@@ -411,32 +396,44 @@ func (w *c09world) open(tr string, ups []int) string {
 }
 
 func (w *c09world) close() {
-	if w.paused {
-		w.s.Unpause()
+	// every case runs in a process of its own: after a failure the verdict is all that is wanted,
+	// and what is left of the cluster may not be in a state to be closed
+	if w.cs.Oracle == "fail" || w.dead {
+		return
 	}
-	for _, t := range w.tnis {
-		t.Done()
-	}
-	for _, tok := range w.s2toks {
-		if rec := fix.RecOf(tok); rec != nil {
-			rec.Tni.Done()
+	w.guarded(60*time.Second, "hang", "closing the cluster at the end of the case", func() {
+		if w.paused {
+			w.s.Unpause()
 		}
-	}
-	for _, v := range w.victims {
-		w.stop(v)
-		if v.proxy != nil {
-			v.proxy.ln.Close()
+		for _, t := range w.tnis {
+			t.Done()
 		}
-		if v.silent != nil {
-			v.silent.closeAll()
+		for _, tok := range w.s2toks {
+			if rec := fix.RecOf(tok); rec != nil {
+				rec.Tni.Done()
+			}
 		}
-	}
-	if w.oldTimeout != 0 {
-		network.VerifSetReadTimeout(w.oldTimeout)
-	}
-	if w.lt != nil {
-		w.lt.CloseAll()
-	}
+		for _, v := range w.victims {
+			w.stop(v)
+			if v.proxy != nil {
+				v.proxy.ln.Close()
+			}
+			if v.silent != nil {
+				v.silent.closeAll()
+			}
+			if v.holder != nil {
+				v.holder.close()
+			}
+		}
+		if w.oldTimeout != 0 {
+			network.VerifSetReadTimeout(w.oldTimeout)
+		}
+		if w.lt != nil {
+			w.lt.CloseAll()
+		} else {
+			w.closeTLS()
+		}
+	})
 }
 
 // identity of peer n as S addresses it; a victim that never ran gets an address nothing listens on
@@ -447,7 +444,7 @@ func (w *c09world) sid(n int) *network.ServerIdentity {
 	v := w.victim(n)
 	if v.sid == nil {
 		if w.tcp {
-			v.own = network.NewServerIdentity(v.kp.Public, network.NewTCPAddress("127.0.0.1:"+strconv.Itoa(c09port(v.n))))
+			v.own = w.identity(v, w.addr(c09port(v.n)))
 			v.sid = v.own
 		} else {
 			v.own = network.NewServerIdentity(v.kp.Public, network.NewLocalAddress("127.0.0.1:"+strconv.Itoa(31000+v.n)))
@@ -474,20 +471,13 @@ func (w *c09world) tni(entry string, dests []int) (*onet.TreeNodeInstance, []*on
 		ids = append(ids, w.sid(d))
 	}
 	ro := onet.NewRoster(ids)
-	ov := w.lt.Overlays[w.s.ServerIdentity.ID]
 	if entry == "parent" {
 		if len(dests) == 0 {
 			t, nodes := fix.BuildTree(ro, []int{-1}, []int{0})
-			w.lt.Trees[t.ID] = t
-			ov.RegisterTree(t)
-			tni, err := w.lt.NewTreeNodeInstance(nodes[0], fix.ProtoName)
-			return tni, nil, err
+			return w.bareTni(t, nodes[0]), nil, nil
 		}
 		t, nodes := fix.BuildTree(ro, []int{-1, 0}, []int{1, 0})
-		w.lt.Trees[t.ID] = t
-		ov.RegisterTree(t)
-		tni, err := w.lt.NewTreeNodeInstance(nodes[1], fix.ProtoName)
-		return tni, nodes[:1], err
+		return w.bareTni(t, nodes[1]), nodes[:1], nil
 	}
 	parent, member := []int{-1}, []int{0}
 	for i := range dests {
@@ -495,7 +485,13 @@ func (w *c09world) tni(entry string, dests []int) (*onet.TreeNodeInstance, []*on
 		member = append(member, i+1)
 	}
 	t, nodes := fix.BuildTree(ro, parent, member)
-	pi, err := ov.CreateProtocol(fix.ProtoName, t, onet.NilServiceID)
+	var pi onet.ProtocolInstance
+	var err error
+	if w.lt != nil {
+		pi, err = w.lt.Overlays[w.s.ServerIdentity.ID].CreateProtocol(fix.ProtoName, t, onet.NilServiceID)
+	} else {
+		pi, err = w.svc.ctx.CreateProtocol(fix.ProtoName, t)
+	}
 	if err != nil {
 		return nil, nil, err
 	}
@@ -516,42 +512,90 @@ func (w *c09world) tni(entry string, dests []int) (*onet.TreeNodeInstance, []*on
 	return rec.Tni, nodes[1:], nil
 }
 
+// bareTni is a tree-node instance of S for that node, listed in S's overlay (so that Done closes
+// it), with no protocol instance bound: only its sends are used.
+func (w *c09world) bareTni(t *onet.Tree, tn *onet.TreeNode) *onet.TreeNodeInstance {
+	n := w.svc.ctx.NewTreeNodeInstance(t, tn, fix.ProtoName)
+	w.tnis = append(w.tnis, n)
+	return n
+}
+
+// gotAt is the number of messages that reached peer d so far (peer 0: protocol messages handled
+// by the second survivor's recording protocol).
+func (w *c09world) gotAt(d int) int64 {
+	if d == 0 {
+		return w.canaryCount()
+	}
+	return atomic.LoadInt64(&w.victim(d).got)
+}
+
+// awaitDeliveries polls until every destination has at least want[d] more messages than before.
+func (w *c09world) awaitDeliveries(dests []int, before, want map[int]int64, patience time.Duration) (int64, bool) {
+	reached := func() (int64, bool) {
+		var tot int64
+		all := true
+		seen := map[int]bool{}
+		for _, d := range dests {
+			if seen[d] {
+				continue
+			}
+			seen[d] = true
+			got := w.gotAt(d) - before[d]
+			tot += got
+			if got < want[d] {
+				all = false
+			}
+		}
+		return tot, all
+	}
+	end := time.Now().Add(patience)
+	for {
+		if _, all := reached(); all || !time.Now().Before(end) {
+			break
+		}
+		time.Sleep(500 * time.Microsecond)
+	}
+	// nothing more than what is wanted may arrive: give stragglers a moment to show up
+	time.Sleep(2 * time.Millisecond)
+	return reached()
+}
+
 func (w *c09world) send(entry string, dests []int, n int) string {
-	if n < 1 || (n > 1 && entry != "router") {
+	if n < 0 || (n != 1 && entry != "router") {
 		return "bad-op"
 	}
 	before := map[int]int64{}
 	for _, d := range dests {
-		if d != 0 {
-			before[d] = atomic.LoadInt64(&w.victim(d).got)
-		}
+		before[d] = w.gotAt(d)
 	}
-	s2before := w.canaryCount()
 	atomic.AddInt64(&w.seq, 1)
 	msg := func() interface{} { return &C09Msg{V: w.seq} }
 	errs := 0
-	t0 := time.Now()
+	var call func()
 	switch entry {
 	case "router":
-		if len(dests) != 1 {
+		if len(dests) != 1 || dests[0] == 0 {
 			return "bad-op"
 		}
 		var ms []network.Message
 		for i := 0; i < n; i++ {
 			ms = append(ms, msg())
 		}
-		if dests[0] == 0 {
-			return "bad-op"
-		}
-		if _, err := w.s.Send(w.sid(dests[0]), ms...); err != nil {
-			errs = 1
+		si := w.sid(dests[0])
+		call = func() {
+			if _, err := w.s.Send(si, ms...); err != nil {
+				errs = 1
+			}
 		}
 	case "raw":
 		if len(dests) != 1 || dests[0] == 0 {
 			return "bad-op"
 		}
-		if err := w.svc.ctx.SendRaw(w.sid(dests[0]), msg()); err != nil {
-			errs = 1
+		si := w.sid(dests[0])
+		call = func() {
+			if err := w.svc.ctx.SendRaw(si, msg()); err != nil {
+				errs = 1
+			}
 		}
 	case "sendto", "parent", "children", "parallel", "multicast", "broadcast":
 		if (entry == "sendto" && len(dests) != 1) || (entry == "parent" && len(dests) > 1) {
@@ -563,28 +607,15 @@ func (w *c09world) send(entry string, dests []int, n int) string {
 			return "harness-error"
 		}
 		m := &fix.M3{V: int(w.seq)}
-		switch entry {
-		case "sendto":
-			if tni.SendTo(nodes[0], m) != nil {
-				errs = 1
-			}
-		case "parent":
-			if tni.SendToParent(m) != nil {
-				errs = 1
-			}
-		case "children":
-			if tni.SendToChildren(m) != nil {
-				errs = 1
-			}
-		case "parallel":
-			errs = len(tni.SendToChildrenInParallel(m))
-		case "multicast":
-			errs = len(tni.Multicast(m, nodes...))
-		case "broadcast":
-			errs = len(tni.Broadcast(m))
-		}
+		call = func() { errs = c09entry(tni, entry, nodes, m) }
 	default:
 		return "bad-op"
+	}
+	t0 := time.Now()
+	patience := w.allowed(len(dests), n)
+	if !w.guarded(patience, "send-exceeds-configured-timeouts",
+		fmt.Sprintf("entry %s towards %v (the configured time-outs allow %v per connect)", entry, dests, w.perConnect()), call) {
+		return "blocked"
 	}
 	lat := time.Since(t0)
 	// what the property promises: every destination that listens gets the message(s), every
@@ -592,8 +623,11 @@ func (w *c09world) send(entry string, dests []int, n int) string {
 	wantDel := map[int]int64{}
 	wantErrs := 0
 	for _, d := range dests {
+		if n == 0 {
+			break
+		}
 		if w.isUp(d) {
-			wantDel[d] = int64(n)
+			wantDel[d] += int64(n)
 		} else {
 			wantErrs++
 			if entry == "children" {
@@ -601,44 +635,14 @@ func (w *c09world) send(entry string, dests []int, n int) string {
 			}
 		}
 	}
-	if entry == "children" && wantErrs > 1 {
-		wantErrs = 1
+	if n == 0 {
+		wantErrs = 1 // "need to send at least one message"
 	}
-	waitFor := 3 * time.Second
+	waitFor := c09waitDeliver
 	if w.cutArmed {
 		waitFor = 200 * time.Millisecond
 	}
-	deadline := time.After(waitFor)
-	reached := func() (int64, bool) {
-		var tot int64
-		all := true
-		for _, d := range dests {
-			var got int64
-			if d == 0 {
-				got = w.canaryCount() - s2before
-			} else {
-				got = atomic.LoadInt64(&w.victim(d).got) - before[d]
-			}
-			tot += got
-			if got < wantDel[d] {
-				all = false
-			}
-		}
-		return tot, all
-	}
-wait:
-	for {
-		if _, all := reached(); all {
-			break
-		}
-		select {
-		case <-deadline:
-			break wait
-		case <-time.After(500 * time.Microsecond):
-		}
-	}
-	time.Sleep(2 * time.Millisecond)
-	tot, all := reached()
+	tot, all := w.awaitDeliveries(dests, before, wantDel, waitFor)
 	for _, d := range dests {
 		if d != 0 && w.isUp(d) && atomic.LoadInt64(&w.victim(d).got) > before[d] {
 			w.victim(d).connected = true
@@ -656,59 +660,97 @@ wait:
 				w.cutArmed = false
 			}
 		}
-		if lat > 12*time.Second {
-			w.cs.Fail("send-too-slow", fmt.Sprintf("entry %s towards %v over a cut connection returned after %v", entry, dests, lat))
-		}
 		w.tag("send-over-cut:" + strings.SplitN(res, ":", 2)[0])
 		return fmt.Sprintf("%s delivered=%d", res, tot)
 	}
+	w.judge(entry, fmt.Sprint(dests), errs, wantErrs, all, tot, lat)
+	return fmt.Sprintf("%s delivered=%d", res, tot)
+}
+
+// judge is the property's own oracle for one entry-point call.
+func (w *c09world) judge(entry, dests string, errs, wantErrs int, all bool, tot int64, lat time.Duration) {
 	if errs < wantErrs {
 		sig := "error-not-reported"
 		if entry == "raw" {
 			sig = "sendraw-error-dropped"
 		}
-		w.cs.Fail(sig, fmt.Sprintf("entry %s towards %v (nothing listens at %d of them): %d errors reported", entry, dests, wantErrs, errs))
+		w.cs.Fail(sig, fmt.Sprintf("entry %s towards %s (%d of them must cost an error: nothing listens there, or the call is refused): %d errors reported", entry, dests, wantErrs, errs))
 	} else if errs > wantErrs {
-		w.cs.Fail("spurious-error", fmt.Sprintf("entry %s towards %v: %d errors, %d destinations are down", entry, dests, errs, wantErrs))
+		w.cs.Fail("spurious-error", fmt.Sprintf("entry %s towards %s: %d errors, %d expected", entry, dests, errs, wantErrs))
 	}
 	if !all {
-		w.cs.Fail("not-delivered", fmt.Sprintf("entry %s towards %v: a listening destination did not get its message(s) within 3 s (total delivered %d)", entry, dests, tot))
+		w.cs.Fail("not-delivered", fmt.Sprintf("entry %s towards %s: a listening destination did not get its message(s) within %v (total delivered %d)", entry, dests, c09waitDeliver, tot))
 	}
-	bound := 12 * time.Second
-	if lat > bound {
-		w.cs.Fail("send-too-slow", fmt.Sprintf("entry %s towards %v returned after %v", entry, dests, lat))
+	res := "ok"
+	if errs > 0 {
+		res = "err"
 	}
 	if wantErrs > 0 {
 		// measured and reported (it ends up in the outcome key of the case), never compared
 		w.tag("dead-peer-send-latency" + c09latency(lat))
 	}
-	w.tag(fmt.Sprintf("send:%s:%s:down=%d", entry, strings.SplitN(res, ":", 2)[0], c03bucketN(wantErrs)))
-	return fmt.Sprintf("%s delivered=%d", res, tot)
+	w.tag(fmt.Sprintf("send:%s:%s:down=%d", entry, res, c09bucketN(wantErrs)))
+}
+
+// c09entry calls one protocol-facing entry point and returns the number of errors it handed back.
+func c09entry(tni *onet.TreeNodeInstance, entry string, nodes []*onet.TreeNode, m interface{}) int {
+	switch entry {
+	case "sendto":
+		var to *onet.TreeNode
+		if len(nodes) > 0 {
+			to = nodes[0]
+		}
+		if tni.SendTo(to, m) != nil {
+			return 1
+		}
+	case "parent":
+		if tni.SendToParent(m) != nil {
+			return 1
+		}
+	case "children":
+		if tni.SendToChildren(m) != nil {
+			return 1
+		}
+	case "parallel":
+		return len(tni.SendToChildrenInParallel(m))
+	case "multicast":
+		return len(tni.Multicast(m, nodes...))
+	case "broadcast":
+		return len(tni.Broadcast(m))
+	}
+	return 0
+}
+
+func (w *c09world) selfsend(n int) string {
+	var ms []network.Message
+	for i := 0; i < n; i++ {
+		ms = append(ms, &C09Msg{V: atomic.AddInt64(&w.seq, 1)})
+	}
+	before := atomic.LoadInt64(&w.selfGot)
+	var err error
+	if !w.guarded(w.allowed(1, n), "send-exceeds-configured-timeouts", "a send of the survivor to itself", func() {
+		_, err = w.s.Send(w.s.ServerIdentity, ms...)
+	}) {
+		return "blocked"
+	}
+	got := atomic.LoadInt64(&w.selfGot) - before // dispatched in the caller's goroutine: nothing to wait for
+	if (n == 0) != (err != nil) {
+		w.cs.Fail("spurious-error", fmt.Sprintf("a send of %d message(s) of the survivor to itself returned %v", n, err))
+	}
+	if got != int64(n) {
+		w.cs.Fail("not-delivered", fmt.Sprintf("a send of %d message(s) of the survivor to itself dispatched %d", n, got))
+	}
+	w.tag("selfsend")
+	if err != nil {
+		return fmt.Sprintf("err:1 delivered=%d", got)
+	}
+	return fmt.Sprintf("ok delivered=%d", got)
 }
 
 // c09port gives victim n of this process a fixed TCP port outside the ephemeral range, so that a
 // stopped victim's address stays silent (nobody else binds it) and a restart can bind it again.
 func c09port(n int) int {
 	return 10000 + (os.Getpid()%1200)*16 + n
-}
-
-// sendOne performs one single-destination entry point towards peer d and tells whether it
-// reported an error.
-func (w *c09world) sendOne(entry string, d int) (bool, error) {
-	switch entry {
-	case "router":
-		_, err := w.s.Send(w.sid(d), &C09Msg{V: atomic.AddInt64(&w.seq, 1)})
-		return err != nil, nil
-	case "raw":
-		return w.svc.ctx.SendRaw(w.sid(d), &C09Msg{V: atomic.AddInt64(&w.seq, 1)}) != nil, nil
-	case "sendto":
-		tni, nodes, err := w.tni("sendto", []int{d})
-		if err != nil {
-			return false, err
-		}
-		return tni.SendTo(nodes[0], &fix.M3{V: 1}) != nil, nil
-	}
-	return false, fmt.Errorf("no such single-destination entry %q", entry)
 }
 
 // par: sends towards dead peers are in progress (each keeps dialling for a while) when a send
@@ -719,47 +761,63 @@ func (w *c09world) par(entry string, deads []int, healthy int) string {
 		return "bad-op"
 	}
 	hv := w.victim(healthy)
+	obs := ""
+	for attempt := 1; ; attempt++ {
+		o, held, msg := w.parOnce(entry, deads, healthy)
+		if attempt == 1 {
+			obs = o
+		}
+		if w.dead || w.cs.Oracle == "fail" || !held {
+			break
+		}
+		if attempt == 3 {
+			w.cs.Fail("healthy-send-held-back", msg+" (three times out of three)")
+			break
+		}
+		// once more, with the healthy peer unknown to S again: it restarts, S notices and drops
+		// the connection (neither is visible to the model: the table ends up as after one first
+		// contact, handler calls are attributed to the operation that asks for them)
+		w.tag("par-repeated")
+		w.stop(hv)
+		w.waitNoConn(hv.sid.GetID(), c09waitHandlers)
+		if err := w.start(hv); err != nil {
+			w.cs.Fail("harness", err.Error())
+			break
+		}
+	}
+	return obs
+}
+
+func (w *c09world) parOnce(entry string, deads []int, healthy int) (obs string, held bool, heldMsg string) {
+	hv := w.victim(healthy)
 	before := atomic.LoadInt64(&hv.got)
 	var finished, errs int32
 	var wg sync.WaitGroup
 	// trees and instances are prepared first: the overlay's bookkeeping is not what is measured
-	type job struct{ run func() bool }
-	var jobs []job
+	var jobs []func() bool
 	for _, d := range deads {
 		d := d
 		if entry == "sendto" {
 			tni, nodes, err := w.tni("sendto", []int{d})
 			if err != nil {
 				w.cs.Fail("harness", err.Error())
-				return "harness-error"
+				return "harness-error", false, ""
 			}
-			jobs = append(jobs, job{func() bool { return tni.SendTo(nodes[0], &fix.M3{V: 1}) != nil }})
+			jobs = append(jobs, func() bool { return tni.SendTo(nodes[0], &fix.M3{V: 1}) != nil })
 		} else {
 			// identities are resolved here: the victim table is not for concurrent use
 			si := w.sid(d)
 			if entry == "router" {
-				jobs = append(jobs, job{func() bool {
+				jobs = append(jobs, func() bool {
 					_, err := w.s.Send(si, &C09Msg{V: atomic.AddInt64(&w.seq, 1)})
 					return err != nil
-				}})
+				})
 			} else {
-				jobs = append(jobs, job{func() bool {
+				jobs = append(jobs, func() bool {
 					return w.svc.ctx.SendRaw(si, &C09Msg{V: atomic.AddInt64(&w.seq, 1)}) != nil
-				}})
+				})
 			}
 		}
-	}
-	t0 := time.Now()
-	for _, j := range jobs {
-		j := j
-		wg.Add(1)
-		go func() {
-			defer wg.Done()
-			if j.run() {
-				atomic.AddInt32(&errs, 1)
-			}
-			atomic.AddInt32(&finished, 1)
-		}()
 	}
 	hsi := w.sid(healthy)
 	nDead := 0
@@ -768,24 +826,39 @@ func (w *c09world) par(entry string, deads []int, healthy int) string {
 			nDead++
 		}
 	}
-	time.Sleep(100 * time.Millisecond)
-	_, herr := w.s.Send(hsi, &C09Msg{V: atomic.AddInt64(&w.seq, 1)})
-	hlat := time.Since(t0) - 100*time.Millisecond
-	doneBefore := atomic.LoadInt32(&finished)
-	deadline := time.After(3 * time.Second)
-	delivered := int64(0)
-	for delivered < 1 {
-		delivered = atomic.LoadInt64(&hv.got) - before
-		select {
-		case <-deadline:
-			delivered = atomic.LoadInt64(&hv.got) - before
-			goto out
-		case <-time.After(500 * time.Microsecond):
-		}
+	var herr error
+	var hlat, total time.Duration
+	var doneBefore int32
+	if !w.guarded(w.allowed(len(deads)+1, 1), "send-exceeds-configured-timeouts",
+		fmt.Sprintf("%d concurrent %s sends towards dead peers %v and a send to healthy peer %d", len(deads), entry, deads, healthy), func() {
+			t0 := time.Now()
+			for _, j := range jobs {
+				j := j
+				wg.Add(1)
+				go func() {
+					defer wg.Done()
+					if j() {
+						atomic.AddInt32(&errs, 1)
+					}
+					atomic.AddInt32(&finished, 1)
+				}()
+			}
+			time.Sleep(100 * time.Millisecond)
+			t1 := time.Now()
+			_, herr = w.s.Send(hsi, &C09Msg{V: atomic.AddInt64(&w.seq, 1)})
+			hlat = time.Since(t1)
+			doneBefore = atomic.LoadInt32(&finished)
+			wg.Wait()
+			total = time.Since(t0)
+		}) {
+		return "blocked", false, ""
 	}
-out:
-	wg.Wait()
-	total := time.Since(t0)
+	end := time.Now().Add(c09waitDeliver)
+	delivered := atomic.LoadInt64(&hv.got) - before
+	for delivered < 1 && herr == nil && time.Now().Before(end) {
+		time.Sleep(500 * time.Microsecond)
+		delivered = atomic.LoadInt64(&hv.got) - before
+	}
 	hres := "ok"
 	if herr != nil {
 		hres = "err:1"
@@ -801,11 +874,12 @@ out:
 	} else if !w.tcp && doneBefore > 0 && total > 300*time.Millisecond {
 		// on the in-memory transport a doomed connect keeps trying for about half a second; the
 		// healthy send started 100 ms after them and needs no more than a dial
-		w.cs.Fail("healthy-send-held-back", fmt.Sprintf("the send to healthy peer %d returned after %v, when %d of the %d sends to dead peers %v had already given up (they take %v): it waited for them", healthy, hlat, doneBefore, len(deads), deads, total))
+		held = true
+		heldMsg = fmt.Sprintf("the send to healthy peer %d returned after %v, when %d of the %d sends to dead peers %v had already given up (they take %v): it waited for them", healthy, hlat, doneBefore, len(deads), deads, total)
 	}
-	w.tag(fmt.Sprintf("par:%s:dead=%d:held=%v", entry, c03bucketN(nDead), doneBefore > 0))
+	w.tag(fmt.Sprintf("par:%s:dead=%d", entry, c09bucketN(nDead)))
 	w.tag("par-healthy-latency" + c09latency(hlat))
-	return fmt.Sprintf("err:%d|%s delivered=%d", errs, hres, delivered)
+	return fmt.Sprintf("err:%d|%s delivered=%d", errs, hres, delivered), held, heldMsg
 }
 
 // orphan: see the operation list. Not compared with the model.
@@ -835,57 +909,71 @@ func (w *c09world) orphan(x, k int) string {
 		w.cs.Fail("harness", "canary warm-up: "+err.Error())
 		return "harness-error"
 	}
-	for i := 0; i < 3000 && atomic.LoadInt64(&c09canary) == c0; i++ {
+	for end := time.Now().Add(c09waitDeliver); atomic.LoadInt64(&c09canary) == c0 && time.Now().Before(end); {
 		time.Sleep(time.Millisecond)
 	}
 	if atomic.LoadInt64(&c09canary) == c0 {
-		w.cs.Fail("not-delivered", "the canary warm-up message was not handled within 3 s")
+		w.cs.Fail("not-delivered", fmt.Sprintf("the canary warm-up message was not handled within %v", c09waitDeliver))
 		return "no-canary"
 	}
-	// the orphan: first message of a run over a tree only x knows; x is dead and S has no
-	// connection with it, so S's tree request has to dial
-	xo := onet.NewRoster([]*network.ServerIdentity{w.sid(x), w.s.ServerIdentity})
-	xt, xn := fix.BuildTree(xo, []int{-1, 0}, []int{0, 1})
-	round := uuid.New()
-	env, err := fix.Envelope(w.sid(x), fix.TokenFor(xt, xn[0], round), fix.TokenFor(xt, xn[1], round), &fix.M3{V: 7})
-	if err != nil {
-		w.cs.Fail("harness", err.Error())
-		return "harness-error"
-	}
-	c1 := atomic.LoadInt64(&c09canary)
-	t0 := time.Now()
-	var procDone int64
-	go func() {
-		ov.Process(env)
-		atomic.StoreInt64(&procDone, int64(time.Since(t0)))
-	}()
-	time.Sleep(100 * time.Millisecond)
-	for i := 0; i < k; i++ {
-		root.Tni.SendTo(nodes[1], &fix.M3{V: i + 1})
-	}
-	var canaryDone time.Duration
-	for i := 0; i < 5000; i++ {
-		if atomic.LoadInt64(&c09canary)-c1 >= int64(k) {
-			canaryDone = time.Since(t0)
+	var got int64
+	for attempt := 1; attempt <= 3; attempt++ {
+		// the orphan: first message of a run over a tree only x knows (a new tree every time: S asks
+		// for a tree once); x is dead and S has no connection with it, so S's tree request has to dial
+		xo := onet.NewRoster([]*network.ServerIdentity{w.sid(x), w.s.ServerIdentity})
+		xt, xn := fix.BuildTree(xo, []int{-1, 0}, []int{0, 1})
+		round := uuid.New()
+		env, err := fix.Envelope(w.sid(x), fix.TokenFor(xt, xn[0], round), fix.TokenFor(xt, xn[1], round), &fix.M3{V: 7})
+		if err != nil {
+			w.cs.Fail("harness", err.Error())
+			return "harness-error"
+		}
+		c1 := atomic.LoadInt64(&c09canary)
+		t0 := time.Now()
+		var procDone int64
+		go func() {
+			ov.Process(env)
+			atomic.StoreInt64(&procDone, int64(time.Since(t0))+1)
+		}()
+		time.Sleep(100 * time.Millisecond)
+		for i := 0; i < k; i++ {
+			root.Tni.SendTo(nodes[1], &fix.M3{V: i + 1})
+		}
+		var canaryDone time.Duration
+		for end := time.Now().Add(c09waitDeliver); time.Now().Before(end); {
+			if atomic.LoadInt64(&c09canary)-c1 >= int64(k) {
+				canaryDone = time.Since(t0)
+				break
+			}
+			time.Sleep(time.Millisecond)
+		}
+		for end := time.Now().Add(w.allowed(1, 1)); atomic.LoadInt64(&procDone) == 0 && time.Now().Before(end); {
+			time.Sleep(time.Millisecond)
+		}
+		pd := time.Duration(atomic.LoadInt64(&procDone))
+		got = atomic.LoadInt64(&c09canary) - c1
+		held := false
+		switch {
+		case pd == 0:
+			w.cs.Fail("hang", fmt.Sprintf("handling the orphan message of dead peer did not return within %v", w.allowed(1, 1)))
+			w.dead = true
+		case got < int64(k):
+			w.cs.Fail("not-delivered", fmt.Sprintf("%d of %d canary messages handled within %v", got, k, c09waitDeliver))
+		case pd > 300*time.Millisecond && canaryDone >= pd:
+			held = true
+			if attempt == 3 {
+				w.cs.Fail("canary-held-back", fmt.Sprintf("S spent %v trying to reach dead peer %d for a tree; the %d canary messages of another run, sent 100 ms after that began, were only handled after %v (three times out of three)", pd, x, k, canaryDone))
+			}
+		}
+		if attempt == 1 {
+			w.tag("orphan-canary-latency" + c09latency(canaryDone-100*time.Millisecond))
+		}
+		if !held || w.cs.Oracle == "fail" {
 			break
 		}
-		time.Sleep(time.Millisecond)
+		w.tag("orphan-repeated")
 	}
-	for i := 0; i < 10000 && atomic.LoadInt64(&procDone) == 0; i++ {
-		time.Sleep(time.Millisecond)
-	}
-	pd := time.Duration(atomic.LoadInt64(&procDone))
-	got := atomic.LoadInt64(&c09canary) - c1
-	switch {
-	case pd == 0:
-		w.cs.Fail("hang", "handling the orphan message of dead peer did not return within 10 s")
-	case got < int64(k):
-		w.cs.Fail("not-delivered", fmt.Sprintf("%d of %d canary messages handled within 5 s", got, k))
-	case pd > 300*time.Millisecond && canaryDone >= pd:
-		w.cs.Fail("canary-held-back", fmt.Sprintf("S spent %v trying to reach dead peer %d for a tree; the %d canary messages of another run, sent 100 ms after that began, were only handled after %v", pd, x, k, canaryDone))
-	}
-	w.tag(fmt.Sprintf("orphan:held=%v", pd > 300*time.Millisecond && canaryDone >= pd))
-	w.tag("orphan-canary-latency" + c09latency(canaryDone-100*time.Millisecond))
+	w.tag("orphan")
 	return fmt.Sprintf("handled canaries=%d", got)
 }
 
@@ -909,55 +997,103 @@ func (w *c09world) canaryCount() int64 { return atomic.LoadInt64(&c09canary) }
 
 var c09canary int64
 
-func (w *c09world) down(p int, silent bool) string {
-	v := w.victim(p)
+// callsSince returns the handler calls logged from index from on.
+func (w *c09world) callsSince(from int) []string {
 	w.mu.Lock()
-	w.calls = nil
-	w.mu.Unlock()
+	defer w.mu.Unlock()
+	if from > len(w.calls) {
+		from = len(w.calls)
+	}
+	return append([]string{}, w.calls[from:]...)
+}
+
+// down: how the victim is lost — "stop" (its router stops), "freeze" (silent link), "hang" (its
+// process stops answering, its address keeps accepting).
+func (w *c09world) down(p int, how string) string {
+	v := w.victim(p)
 	had := v.connected && v.up && !v.frozen
-	patience := 3 * time.Second
-	if silent {
+	mark := v.callMark
+	w.mu.Lock()
+	opStart := len(w.calls)
+	w.mu.Unlock()
+	patience := c09waitHandlers
+	noticesBefore := int64(0)
+	for _, q := range w.rhPeer {
+		noticesBefore += w.gotAt(q)
+	}
+	rhOutBefore := atomic.LoadInt64(&w.rhOut)
+	switch how {
+	case "freeze":
 		// nothing is closed: only the read time-out of S's connection can reveal the loss
 		v.silent.freeze()
 		v.frozen = true
-		patience = 8 * time.Second
-	} else {
+		patience = c09waitSilent
+	case "hang":
+		// the process stops (its connections end) and its address goes on accepting
+		w.stop(v)
+		hd, err := c09hold("127.0.0.1:" + v.own.Address.Port())
+		if err != nil {
+			w.cs.Fail("harness", err.Error())
+			return "harness-error"
+		}
+		v.holder = hd
+	default:
 		w.stop(v)
 	}
 	want := 0
 	if had {
 		want = len(w.handlers)
 	}
-	deadline := time.After(patience)
-wait:
-	for {
-		w.mu.Lock()
-		n := len(w.calls)
-		w.mu.Unlock()
-		if n >= want {
+	// calls about p since this incarnation began (S may have noticed before it was asked), calls
+	// about anybody else made while this operation runs
+	about := func() (mine, others []string) {
+		for i, c := range w.callsSince(mark) {
+			if strings.HasSuffix(c, ">"+strconv.Itoa(p)) {
+				mine = append(mine, c)
+			} else if mark+i >= opStart {
+				others = append(others, c)
+			}
+		}
+		return
+	}
+	for end := time.Now().Add(patience); time.Now().Before(end); {
+		if mine, _ := about(); len(mine) >= want {
 			break
 		}
-		select {
-		case <-deadline:
-			break wait
-		case <-time.After(500 * time.Microsecond):
+		time.Sleep(500 * time.Microsecond)
+	}
+	calls, others := about()
+	nrh := 0
+	for _, hd := range w.handlers {
+		if _, ok := w.rh[hd]; ok {
+			nrh++
+		}
+	}
+	if had && nrh > 0 {
+		// handlers that use the router: each has to come back from it
+		for end := time.Now().Add(w.allowed(1, 1) + patience); time.Now().Before(end); {
+			if atomic.LoadInt64(&w.rhOut)-rhOutBefore >= int64(nrh) {
+				break
+			}
+			time.Sleep(500 * time.Microsecond)
+		}
+		if back := atomic.LoadInt64(&w.rhOut) - rhOutBefore; back < int64(nrh) && len(calls) >= want {
+			w.cs.Fail("handler-blocked-in-router", fmt.Sprintf("peer %d was lost and S's error handlers were called (%v); %d of the %d handlers that use the router they are registered with (Closed(), Send to a healthy peer) have not come back from it", p, calls, int64(nrh)-back, nrh))
+			w.dead = true
 		}
 	}
 	// the deferred clean-up of the receive loop (close, remove from the table) follows the handlers
-	for i := 0; had && silent && len(w.handlers) == 0 && i < 8000 && w.s.VerifConnCount(v.sid.GetID()) > 0; i++ {
-		time.Sleep(time.Millisecond)
+	if had && !w.dead && !w.paused {
+		w.waitNoConn(v.sid.GetID(), patience)
 	}
-	for i := 0; had && i < 3000 && w.s.VerifConnCount(v.sid.GetID()) > 0 && len(w.handlers) > 0; i++ {
-		time.Sleep(time.Millisecond)
+	if !w.dead {
+		time.Sleep(5 * time.Millisecond)
 	}
-	for i := 0; had && len(w.handlers) == 0 && i < 300 && w.s.VerifConnCount(v.sid.GetID()) > 0; i++ {
-		time.Sleep(time.Millisecond)
-	}
-	time.Sleep(20 * time.Millisecond)
-	w.mu.Lock()
-	calls := append([]string{}, w.calls...)
-	w.mu.Unlock()
+	calls, others = about()
 	v.connected = false
+	w.mu.Lock()
+	v.callMark = len(w.calls)
+	w.mu.Unlock()
 	if had {
 		// the property's own oracle: every handler is told, with the lost peer's identity
 		for _, hd := range w.handlers {
@@ -968,42 +1104,104 @@ wait:
 				}
 			}
 			if !found {
-				how := "stopped"
-				if silent {
-					how = "went silent without closing its connections"
-				}
-				w.cs.Fail("handler-not-told", fmt.Sprintf("peer %d %s; error handler %d was not called for it within %v; calls: %v", p, how, hd, patience, calls))
+				what := map[string]string{"stop": "stopped", "freeze": "went silent without closing its connections", "hang": "stopped answering"}[how]
+				w.cs.Fail("handler-not-told", fmt.Sprintf("peer %d %s; error handler %d was not called for it within %v; calls: %v", p, what, hd, patience, calls))
 			}
 		}
 	}
-	for _, c := range calls {
-		if !strings.HasSuffix(c, ">"+strconv.Itoa(p)) {
-			w.cs.Fail("handler-wrong-peer", fmt.Sprintf("peer %d stopped, handler calls: %v", p, calls))
+	if len(others) > 0 && !w.silentClass {
+		w.cs.Fail("handler-wrong-peer", fmt.Sprintf("peer %d was lost, handler calls about other peers: %v", p, others))
+	}
+	w.tag(fmt.Sprintf("%s:calls=%d", how, c09bucketN(len(calls))))
+	obs := "-"
+	if len(calls) > 0 {
+		obs = strings.Join(calls, ",")
+	}
+	if len(w.rh) > 0 {
+		// the notices of the handlers that use the router
+		wantN := int64(0)
+		if had {
+			wantN = int64(nrh)
 		}
+		var n int64
+		for end := time.Now().Add(c09waitDeliver); !w.dead; {
+			n = -noticesBefore
+			for _, q := range w.rhPeer {
+				n += w.gotAt(q)
+			}
+			if n >= wantN || !time.Now().Before(end) {
+				break
+			}
+			time.Sleep(500 * time.Microsecond)
+		}
+		if n < wantN && !w.dead {
+			w.cs.Fail("not-delivered", fmt.Sprintf("peer %d was lost; %d of the %d notices its error handlers sent to healthy peers arrived within %v", p, n, wantN, c09waitDeliver))
+		}
+		for _, q := range w.rhPeer {
+			if q != 0 && w.isUp(q) && n > 0 {
+				w.victim(q).connected = true
+			}
+		}
+		w.tag("notices")
+		obs += fmt.Sprintf(" notices=%d", n)
 	}
-	if silent {
-		w.tag(fmt.Sprintf("freeze:calls=%d", c03bucketN(len(calls))))
-	} else {
-		w.tag(fmt.Sprintf("down:calls=%d", c03bucketN(len(calls))))
+	return obs
+}
+
+func (w *c09world) addHandler(hd int, notify int) {
+	var nsi *network.ServerIdentity
+	if notify >= 0 {
+		nsi = w.sid(notify)
+		w.rh[hd] = nsi
+		w.rhPeer[hd] = notify
 	}
-	if len(calls) == 0 {
-		return "-"
-	}
-	return strings.Join(calls, ",")
+	w.handlers = append(w.handlers, hd)
+	w.s.AddErrorHandler(func(si *network.ServerIdentity) {
+		who := "?"
+		w.vmu.Lock()
+		for n, v := range w.victims {
+			if si != nil && si.Public != nil && v.kp.Public.Equal(si.Public) {
+				who = strconv.Itoa(n)
+			}
+		}
+		w.vmu.Unlock()
+		if si != nil && w.s2.ServerIdentity.Public.Equal(si.Public) {
+			who = "0"
+		}
+		w.mu.Lock()
+		w.calls = append(w.calls, fmt.Sprintf("%d>%s", hd, who))
+		w.mu.Unlock()
+		if nsi != nil {
+			// what a handler is there for: look at the router, tell somebody
+			atomic.AddInt64(&w.rhIn, 1)
+			if !w.s.Closed() {
+				w.s.Send(nsi, &C09Msg{V: atomic.AddInt64(&w.seq, 1)})
+			}
+			atomic.AddInt64(&w.rhOut, 1)
+		}
+	})
 }
 
 func c09exec(c *h.Ctx, cs *h.Case) {
 	log.SetDebugVisible(0)
 	log.OutputToBuf()
-	w := &c09world{cs: cs, c: c, victims: map[int]*c09victim{}, tags: map[string]bool{}}
+	if c.Workdir != "" {
+		os.Setenv("CONODE_SERVICE_PATH", c.Workdir)
+	}
+	w := &c09world{cs: cs, c: c, victims: map[int]*c09victim{}, tags: map[string]bool{},
+		rh: map[int]*network.ServerIdentity{}, rhPeer: map[int]int{}, ptni: map[int]*c09ptni{}}
 	defer w.close()
 	cs.NoModel = strings.HasPrefix(cs.Class, "cut") || strings.HasPrefix(cs.Class, "orphan")
 	for _, op := range cs.Ops {
+		if w.dead {
+			cs.Impl = append(cs.Impl, "blocked")
+			continue
+		}
 		tk := strings.Fields(op)
 		obs := "bad-op"
 		switch {
-		case len(tk) == 4 && tk[1] == "open" && (tk[2] == "tcp" || tk[2] == "local") && w.s == nil:
-			if ups, ok := c03ints(tk[3]); ok {
+		case len(tk) == 4 && tk[1] == "open" && (tk[2] == "tcp" || tk[2] == "local" || tk[2] == "tls") && w.s == nil:
+			if ups, ok := c09ints(tk[3]); ok {
 				w.useProxy = strings.HasPrefix(cs.Class, "cut")
 				w.silentClass = strings.HasPrefix(cs.Class, "silent") && tk[2] == "tcp"
 				if w.silentClass {
@@ -1014,38 +1212,34 @@ func c09exec(c *h.Ctx, cs *h.Case) {
 		case w.s == nil:
 		case len(tk) == 3 && tk[1] == "handler":
 			if hd, err := strconv.Atoi(tk[2]); err == nil {
-				w.handlers = append(w.handlers, hd)
-				w.s.AddErrorHandler(func(si *network.ServerIdentity) {
-					who := "?"
-					w.vmu.Lock()
-					for n, v := range w.victims {
-						if si != nil && si.Public != nil && v.kp.Public.Equal(si.Public) {
-							who = strconv.Itoa(n)
-						}
-					}
-					w.vmu.Unlock()
-					if si != nil && w.s2.ServerIdentity.Public.Equal(si.Public) {
-						who = "0"
-					}
-					w.mu.Lock()
-					w.calls = append(w.calls, fmt.Sprintf("%d>%s", hd, who))
-					w.mu.Unlock()
-				})
+				w.addHandler(hd, -1)
 				obs = "ok"
 			}
+		case len(tk) == 4 && tk[1] == "rhandler":
+			hd, err1 := strconv.Atoi(tk[2])
+			q, err2 := strconv.Atoi(tk[3])
+			if err1 == nil && err2 == nil && q > 0 {
+				w.addHandler(hd, q)
+				obs = "ok"
+				w.tag("rhandler")
+			}
 		case len(tk) == 5 && tk[1] == "send":
-			dests, ok := c03ints(tk[3])
+			dests, ok := c09ints(tk[3])
 			n, err := strconv.Atoi(tk[4])
 			if ok && err == nil {
 				obs = w.send(tk[2], dests, n)
 			}
+		case len(tk) == 3 && tk[1] == "selfsend":
+			if n, err := strconv.Atoi(tk[2]); err == nil && n >= 0 {
+				obs = w.selfsend(n)
+			}
 		case len(tk) == 5 && tk[1] == "par":
-			deads, ok := c03ints(tk[3])
+			deads, ok := c09ints(tk[3])
 			hp, err := strconv.Atoi(tk[4])
 			if ok && err == nil && (tk[2] == "router" || tk[2] == "raw" || tk[2] == "sendto") {
 				obs = w.par(tk[2], deads, hp)
 			}
-		case len(tk) == 4 && tk[1] == "orphan":
+		case len(tk) == 4 && tk[1] == "orphan" && w.lt != nil:
 			x, err1 := strconv.Atoi(tk[2])
 			k, err2 := strconv.Atoi(tk[3])
 			if err1 == nil && err2 == nil && x > 0 && k > 0 {
@@ -1053,11 +1247,15 @@ func c09exec(c *h.Ctx, cs *h.Case) {
 			}
 		case len(tk) == 3 && tk[1] == "down":
 			if p, err := strconv.Atoi(tk[2]); err == nil && p > 0 {
-				obs = w.down(p, false)
+				obs = w.down(p, "stop")
 			}
 		case len(tk) == 3 && tk[1] == "freeze" && w.silentClass:
 			if p, err := strconv.Atoi(tk[2]); err == nil && p > 0 && w.victim(p).silent != nil && !w.victim(p).frozen {
-				obs = w.down(p, true)
+				obs = w.down(p, "freeze")
+			}
+		case len(tk) == 3 && tk[1] == "hang" && w.tls:
+			if p, err := strconv.Atoi(tk[2]); err == nil && p > 0 && w.victim(p).up {
+				obs = w.down(p, "hang")
 			}
 		case len(tk) == 2 && tk[1] == "pause":
 			w.s.Pause()
@@ -1073,6 +1271,10 @@ func c09exec(c *h.Ctx, cs *h.Case) {
 		case len(tk) == 3 && tk[1] == "up":
 			if p, err := strconv.Atoi(tk[2]); err == nil && p > 0 {
 				v := w.victim(p)
+				if v.holder != nil {
+					v.holder.close()
+					v.holder = nil
+				}
 				if v.frozen {
 					v.silent.closeAll()
 					if err := v.silent.listen(); err != nil {
@@ -1080,6 +1282,9 @@ func c09exec(c *h.Ctx, cs *h.Case) {
 						obs = "harness-error"
 					} else {
 						v.frozen, v.connected = false, false
+						w.mu.Lock()
+						v.callMark = len(w.calls)
+						w.mu.Unlock()
 						obs = "ok"
 					}
 				} else if v.up {
@@ -1094,14 +1299,22 @@ func c09exec(c *h.Ctx, cs *h.Case) {
 			}
 		case len(tk) == 3 && tk[1] == "conns":
 			if p, err := strconv.Atoi(tk[2]); err == nil && p >= 0 {
-				n := w.s.VerifConnCount(w.sid(p).GetID())
+				n := w.connCount(w.sid(p).GetID())
 				obs = strconv.Itoa(n)
 				// the property's own oracle: no entry for a peer that is gone and was reported
-				if p > 0 && !w.victim(p).up && n != 0 && !w.paused {
+				if p > 0 && !w.victim(p).up && n > 0 && !w.paused {
 					cs.Fail("stale-connection-kept", fmt.Sprintf("peer %d is down and its loss was reported, the table still holds %d connection(s) with it", p, n))
 				}
-				w.tag("conns:" + strconv.Itoa(c03bucketN(n)))
+				w.tag("conns:" + strconv.Itoa(c09bucketN(n)))
 			}
+		case len(tk) == 5 && tk[1] == "tni":
+			obs = w.tniNew(tk[2], tk[3], tk[4])
+		case len(tk) == 3 && tk[1] == "tcfg":
+			obs = w.tniCfg(tk[2])
+		case len(tk) == 3 && tk[1] == "tdone":
+			obs = w.tniDone(tk[2])
+		case len(tk) == 5 && tk[1] == "tsend":
+			obs = w.tniSend(tk[2], tk[3], tk[4])
 		case len(tk) == 4 && tk[1] == "cut" && w.tcp:
 			p, err1 := strconv.Atoi(tk[2])
 			k, err2 := strconv.Atoi(tk[3])
@@ -1113,7 +1326,17 @@ func c09exec(c *h.Ctx, cs *h.Case) {
 				w.tag("cut")
 			}
 		case len(tk) == 2 && tk[1] == "settle":
-			time.Sleep(150 * time.Millisecond)
+			// a cut that has happened is noticed by S's receive loop: wait for that, not for a while
+			for _, v := range w.victims {
+				if v.proxy != nil && atomic.LoadInt32(&v.proxy.fired) == 1 {
+					// every connection S has with the victim went through the proxy; one was cut
+					live := int(atomic.LoadInt32(&v.proxy.accepted)) - 1
+					for end := time.Now().Add(c09waitHandlers); !w.dead && time.Now().Before(end) && w.connCount(v.sid.GetID()) > live; {
+						time.Sleep(time.Millisecond)
+					}
+				}
+			}
+			time.Sleep(20 * time.Millisecond)
 			obs = "ok"
 		}
 		cs.Impl = append(cs.Impl, obs)
@@ -1124,211 +1347,14 @@ func c09exec(c *h.Ctx, cs *h.Case) {
 	}
 	sort.Strings(tl)
 	tr := "local"
-	if w.tcp {
+	if w.tls {
+		tr = "tls"
+	} else if w.tcp {
 		tr = "tcp"
 	}
 	cs.Outcome = tr + " " + strings.Join(tl, " ")
 }
 
-func c09gen(c *h.Ctx, yield func(*h.Case)) {
-	r := c.Rng
-	emit := func(class string, ops ...string) {
-		c.Count("class=" + class)
-		for _, o := range ops {
-			f := strings.Fields(o)
-			c.Count("op=" + f[1])
-			if f[1] == "send" {
-				c.Count("entry=" + f[2])
-			}
-		}
-		yield(&h.Case{Class: class, Ops: ops})
-	}
-	entriesSingle := []string{"router", "raw", "sendto", "parent"}
-	entriesMulti := []string{"children", "parallel", "multicast", "broadcast"}
-	for _, tr := range []string{"tcp", "local"} {
-		// corpus: the SendRaw witness (fixed in /repo) and every entry point towards a peer
-		// that never listened
-		emit("corpus-sendraw", "c09 open "+tr+" 0", "c09 send router 1 1", "c09 send raw 1 1")
-		emit("corpus-root-has-no-parent", "c09 open "+tr+" 0,1", "c09 send parent - 1", "c09 send children - 1",
-			"c09 send parent 1 1", "c09 send broadcast 1,0 1")
-		ops := []string{"c09 open " + tr + " 0,2"}
-		for _, e := range entriesSingle {
-			ops = append(ops, "c09 send "+e+" 1 1")
-		}
-		for _, e := range entriesMulti {
-			ops = append(ops, "c09 send "+e+" 1,2 1", "c09 send "+e+" 2,1 1")
-		}
-		emit("corpus-every-entry-dead-peer", ops...)
-		emit("corpus-fail-detect-recover",
-			"c09 open "+tr+" 0,1,2", "c09 handler 10", "c09 handler 11",
-			"c09 send router 1 2", "c09 send sendto 2 1", "c09 send sendto 0 1",
-			"c09 conns 1", "c09 down 1", "c09 conns 1", "c09 send router 1 1", "c09 send children 2,1,0 1", "c09 send sendto 0 1",
-			"c09 up 1", "c09 send raw 1 1", "c09 send router 1 3", "c09 conns 1", "c09 conns 2", "c09 conns 0",
-			"c09 down 1", "c09 down 2", "c09 send broadcast 0,1,2 1", "c09 up 2", "c09 send parallel 1,2,0 1")
-	}
-	// random fault sequences
-	n := c.Pick(300, 2500)
-	for i := 0; i < n; i++ {
-		tr := "local"
-		if r.Intn(2) == 0 {
-			tr = "tcp"
-		}
-		nv := 2 + r.Intn(3)
-		up := map[int]bool{}
-		ups := []int{0}
-		for v := 1; v <= nv; v++ {
-			if r.Intn(4) > 0 {
-				up[v] = true
-				ups = append(ups, v)
-			}
-		}
-		ops := []string{fmt.Sprintf("c09 open %s %s", tr, h.Ints(ups))}
-		for j := r.Intn(3); j > 0; j-- {
-			ops = append(ops, fmt.Sprintf("c09 handler %d", 10+len(ops)))
-		}
-		// dead-peer sends are slow on the in-memory transport (25 attempts, 20 ms apart): keep the
-		// number of them per case small
-		dead := 0
-		for j := 0; j < 5+r.Intn(10); j++ {
-			switch x := r.Intn(10); {
-			case x < 6:
-				var e string
-				var dests []int
-				if r.Intn(2) == 0 {
-					e = entriesSingle[r.Intn(len(entriesSingle))]
-					dests = []int{1 + r.Intn(nv)}
-					if e == "sendto" && r.Intn(4) == 0 {
-						dests = []int{0}
-					}
-				} else {
-					e = entriesMulti[r.Intn(len(entriesMulti))]
-					for _, v := range r.Perm(nv + 1) {
-						if r.Intn(2) == 0 {
-							dests = append(dests, v)
-						}
-					}
-					if len(dests) == 0 {
-						dests = []int{1}
-					}
-				}
-				nd := 0
-				for _, d := range dests {
-					if d != 0 && !up[d] {
-						nd++
-					}
-				}
-				if dead+nd > 4 {
-					continue
-				}
-				dead += nd
-				k := 1
-				if e == "router" {
-					k = 1 + r.Intn(3)
-				}
-				ops = append(ops, fmt.Sprintf("c09 send %s %s %d", e, h.Ints(dests), k))
-			case x < 8:
-				v := 1 + r.Intn(nv)
-				if up[v] {
-					ops = append(ops, fmt.Sprintf("c09 down %d", v))
-					up[v] = false
-					if r.Intn(2) == 0 {
-						ops = append(ops, fmt.Sprintf("c09 conns %d", v))
-					}
-				}
-			default:
-				v := 1 + r.Intn(nv)
-				if !up[v] {
-					ops = append(ops, fmt.Sprintf("c09 up %d", v))
-					up[v] = true
-				}
-			}
-		}
-		emit("faults-"+tr, ops...)
-	}
-	// failures in progress must not hold healthy traffic back: concurrent sends towards dead peers
-	// (whose entries are gone from the table, so they dial) and a first contact with a healthy peer
-	for i := 0; i < c.Pick(16, 160); i++ {
-		tr := "local"
-		if r.Intn(4) == 0 {
-			tr = "tcp" // results only; the doomed dials are too short on loopback to order anything
-		}
-		nd := 1 + r.Intn(3)
-		ups := []int{0, nd + 1}
-		var deads []int
-		for d := 1; d <= nd; d++ {
-			deads = append(deads, d)
-		}
-		ops := []string{fmt.Sprintf("c09 open %s %s", tr, h.Ints(ups))}
-		if r.Intn(2) == 0 {
-			// the dead ones were alive and used once: their entries were reported and removed
-			ops[0] = fmt.Sprintf("c09 open %s %s", tr, h.Ints(append([]int{0}, append(append([]int{}, deads...), nd+1)...)))
-			ops = append(ops, "c09 handler 10")
-			for _, d := range deads {
-				ops = append(ops, fmt.Sprintf("c09 send router %d 1", d))
-			}
-			for _, d := range deads {
-				ops = append(ops, fmt.Sprintf("c09 down %d", d))
-			}
-		}
-		e := []string{"router", "raw", "sendto"}[r.Intn(3)]
-		ops = append(ops, fmt.Sprintf("c09 par %s %s %d", e, h.Ints(deads), nd+1), fmt.Sprintf("c09 conns %d", nd+1),
-			fmt.Sprintf("c09 send router %d 1", nd+1))
-		emit("concurrent-"+tr, ops...)
-	}
-	// the same at the overlay: a tree request towards a dead peer must not stall the handling of
-	// other runs' messages
-	for i := 0; i < c.Pick(8, 80); i++ {
-		emit("orphan-local", "c09 open local 0", fmt.Sprintf("c09 orphan %d %d", 1+r.Intn(3), 1+r.Intn(4)), "c09 send sendto 0 1")
-	}
-	// a peer that goes silent without closing (power loss, partition): only the read time-out of
-	// the survivor's connection reveals it; then handlers, clean table, errors, recovery
-	for i := 0; i < c.Pick(8, 60); i++ {
-		ops := []string{"c09 open tcp 0,1,2", "c09 handler 10"}
-		if r.Intn(2) == 0 {
-			ops = append(ops, "c09 handler 11")
-		}
-		e := []string{"router", "raw", "sendto", "parent"}[r.Intn(4)]
-		ops = append(ops, "c09 send "+e+" 1 1", "c09 freeze 1", "c09 conns 1",
-			"c09 send "+[]string{"router", "raw", "sendto", "children"}[r.Intn(4)]+" 1 1")
-		if r.Intn(2) == 0 {
-			ops = append(ops, "c09 up 1", "c09 send router 1 "+strconv.Itoa(1+r.Intn(2)), "c09 conns 1")
-		}
-		emit("silent-tcp", ops...)
-	}
-	// stale entries on the in-memory transport (a write on them fails deterministically): the
-	// survivor's receive loops are paused, a victim it is connected to dies and comes back, the
-	// next sends must reconnect — once per message — and deliver
-	for i := 0; i < c.Pick(12, 150); i++ {
-		nm := 1 + r.Intn(3)
-		ops := []string{"c09 open local 0,1,2", "c09 handler 10",
-			fmt.Sprintf("c09 send router 1 %d", 1+r.Intn(2)), "c09 send sendto 2 1", "c09 pause", "c09 kill 1"}
-		if r.Intn(2) == 0 {
-			ops = append(ops, "c09 send raw 1 1", "c09 conns 1")
-		}
-		ops = append(ops, "c09 up 1", fmt.Sprintf("c09 send router 1 %d", nm), "c09 conns 1")
-		e := []string{"raw", "sendto", "children", "broadcast"}[r.Intn(4)]
-		d := "1"
-		if e == "children" || e == "broadcast" {
-			d = "2,1"
-		}
-		ops = append(ops, fmt.Sprintf("c09 send %s %s 1", e, d), "c09 conns 1", "c09 conns 2")
-		emit("stale-local", ops...)
-	}
-	// crash points inside the identity exchange and inside a transfer: the connection towards
-	// the victim is cut after k bytes; afterwards the victim is reachable again
-	for i := 0; i < c.Pick(60, 600); i++ {
-		k := r.Intn(260)
-		e := []string{"router", "raw", "sendto"}[r.Intn(3)]
-		emit("cut-tcp",
-			"c09 open tcp 0,1", "c09 handler 10",
-			fmt.Sprintf("c09 cut 1 %d", k),
-			"c09 send "+e+" 1 1",
-			"c09 settle",
-			"c09 send router 1 1",
-			"c09 send sendto 0 1")
-	}
-}
-
 func init() {
-	h.RegisterProp(h.Prop{Name: "c09", Gen: c09gen, Exec: c09exec, Isolate: true, Workers: 6, Timeout: 25 * time.Second})
+	h.RegisterProp(h.Prop{Name: "c09", Gen: c09gen, Exec: c09exec, Isolate: true, Workers: 6, Timeout: 120 * time.Second})
 }
